@@ -246,7 +246,6 @@ func stubCase(s *hx.Session, bits [][4]bool, ps []int, split bool) error {
 	}
 	s.BeginCase(hdr)
 	ctx := context.Background()
-	anyFail := false
 
 	rec.log = nil
 	e := t.Begin(ctx)
@@ -277,7 +276,6 @@ func stubCase(s *hx.Session, bits [][4]bool, ps []int, split bool) error {
 			}
 		}
 	default:
-		anyFail = true
 		last := rec.log[0]
 		for _, c := range rec.log {
 			if c.kind != kRollback {
@@ -327,10 +325,7 @@ func stubCase(s *hx.Session, bits [][4]bool, ps []int, split bool) error {
 		}
 	}
 	s.Hit(fmt.Sprintf("participants=%d", len(ps)))
-	if len(ps) > 0 && anyFail {
-		s.Nontrivial()
-	}
-	if len(ps) > 0 && !anyFail {
+	if len(ps) > 0 {
 		s.Nontrivial()
 	}
 	return nil
